@@ -126,12 +126,18 @@ func handleCAP(c *Client, e Event) {
 		for cap := range caps {
 			// TODO: test the deletion.
 			delete(c.state.enabledCap, cap)
+			// The server no longer offers it: don't request it with the next listing.
+			delete(c.state.tmpCap, cap)
 		}
 		return
 	}
 
 	// We can assume there was a failure attempting to enable a capability.
 	if len(e.Params) >= 2 && e.Params[1] == CAP_NAK {
+		// The request was refused as a whole and this round is over: forget what
+		// was pending, so that a later 'CAP NEW'/'CAP LS' is evaluated on its own.
+		c.state.tmpCap = make(map[string]map[string]string)
+
 		// Let the server know that we're done.
 		c.write(&Event{Command: CAP, Params: []string{CAP_END}})
 		return
